@@ -7,6 +7,58 @@ HERE = os.path.dirname(os.path.dirname(os.path.abspath(__file__)))
 
 CLAIMED = {
     # id: (level text, level note, technique, design_ref)
+
+    "C01": (
+        "Bounded exhaustive exploration by the solver: the agent database is a vector of symbolic presence bits "
+        "consulted lazily by a reference RFC 3416 agent; CrossHair/z3 enumerate every database the real "
+        "Client.walk/multiwalk can distinguish within the 14-OID universe, for every ordered list of 1..3 disjoint "
+        "roots, over v2c and v3 at each level, and report exhaustion ('Confirmed over all paths').",
+        "Trusted: reference agent/USM engine/BER codec (validated against captured packets and RFC vectors per "
+        "run), CrossHair's path enumeration, the concolic window (client runs on concrete datagrams; a fully traced "
+        "twin runs at a smaller bound).",
+        "solver-enumerated environments (CrossHair/z3) driving the real client; native replay",
+        "DESIGN.md section 5 C01",
+    ),
+    "C02": (
+        "As C01 with the bulk size and the agent's GETBULK truncation policy as additional solver variables; the "
+        "real Client.bulkwalk result is compared with the database-derived set and with the GETNEXT walk in the "
+        "same path.",
+        "As C01. Known findings F02 / F15 are suppressed by run-signature only.",
+        "solver-enumerated environments (CrossHair/z3) driving the real client; native replay",
+        "DESIGN.md section 5 C02",
+    ),
+    "C03": (
+        "The agent is an arbitrary answer function whose values are solver variables assigned lazily per distinct "
+        "question; CrossHair/z3 enumerate every function the run can distinguish within the bound; termination is "
+        "a request budget derived from the OIDs revealed, so a non-terminating walk is a finite counter-example.",
+        "Trusted: as C01. Beyond the stated number of arbitrary answers the function is fixed to endOfMibView.",
+        "solver-enumerated adversarial agent functions (CrossHair/z3); native replay",
+        "DESIGN.md section 5 C03",
+    ),
+    "C04": (
+        "Symbolic database, request list, non-repeaters/max-repetitions, SET value selector and response tampering; "
+        "exhaustive within the bound by CrossHair/z3; oracle = reference agent's database and independently decoded "
+        "request log.",
+        "Trusted: as C01; where the statement is silent (get-next of the last object, v1 noSuchName) any exception is accepted.",
+        "solver-enumerated environments (CrossHair/z3) driving the real client; native replay",
+        "DESIGN.md section 5 C04",
+    ),
+    "C07": (
+        "The clock behind get_request_id is a stub with solver-chosen ticks per read, the reply's request-id offset, "
+        "community, version and the discovery reply's message id are solver variables; every schedule within the "
+        "bound is enumerated by CrossHair/z3 against the real operations over v1/v2c/v3.",
+        "Trusted: as C01. Clock model: non-decreasing, at most one tick per read within the first 6 reads.",
+        "solver-enumerated clock schedules and replies (CrossHair/z3); native replay",
+        "DESIGN.md section 5 C07",
+    ),
+    "C08": (
+        "error-status, error-index and the number of bindings in the error response are solver variables; every "
+        "combination in two stated boxes is enumerated by CrossHair/z3 for every operation and protocol version and "
+        "compared with an RFC 3416 table written out in the harness.",
+        "Trusted: as C01. Status values outside the listed set are outside the claim (dict lookup forces enumeration).",
+        "solver-enumerated error responses (CrossHair/z3) against the real decode path; native replay",
+        "DESIGN.md section 5 C08",
+    ),
     "C17": (
         "Bounded symbolic execution (CrossHair/z3) of the real constructors, encoders and decoders proves the "
         "wrap/clamp, unsigned-decode and round-trip post-conditions over every path for all integers / all "
